@@ -55,6 +55,8 @@ def build():
     A(Op("smooth31", lambda x, a: x.spec.smooth(3, 1), kind="spectra", min_nf=3, scale="lin", rot="relabel"))
     A(Op("interp", lambda x, a: x.spec.interp(freq=a["freq_t"], dir=a["dir_t"]), kind="spectra", min_nf=2, scale="lin", rot="skip"))
     A(Op("interp_freq", lambda x, a: x.spec.interp(freq=a["freq_t"]), kind="spectra", needs_dir=False, min_nf=2, scale="lin", rot="relabel"))
+    A(Op("interp_like", lambda x, a: x.spec.interp_like(a["like"]), kind="spectra", min_nf=2, scale="lin", rot="skip"))
+    A(Op("rmse", lambda x, a: x.spec.rmse(a["other"]), min_nf=1, scale="skip", rot="skip"))
     A(Op("rotate", lambda x, a: x.spec.rotate(a["angle"]), kind="spectra", scale="lin", rot="relabel"))
     A(Op("split", lambda x, a: x.spec.split(fmin=a["fcut_lo"], fmax=a["fcut_hi"]), kind="spectra", needs_dir=False, min_nf=3, scale="lin", rot="relabel"))
     A(Op("split_dir", lambda x, a: x.spec.split(dmin=a["dmin"], dmax=a["dmax"]), kind="spectra", scale="lin", rot="skip"))
@@ -111,6 +113,10 @@ def make_aux(rng, x, xr):
         lo = float(f[0] + (f[-1] - f[0]) * rng.uniform(0.05, 0.4))
         a["fcut_lo"], a["fcut_hi"] = lo, float(lo + (f[-1] - lo) * rng.uniform(0.3, 0.9))
     a["dir_t"] = np.arange(0.0, 360.0, float(rng.choice([15.0, 20.0, 45.0])))
+    # a second array on x's own grid (rmse) and one on the target grid (interp_like); x's labels, x's storage order
+    a["other"] = (x * xr.DataArray(1.0 + 0.5 * rng.random(x.shape), dims=x.dims, coords=x.coords)).astype(x.dtype).compute()
+    if f.size >= 2:
+        a["like"] = xr.DataArray(np.zeros((len(a["freq_t"]), len(a["dir_t"]))), dims=["freq", "dir"], coords={"freq": a["freq_t"], "dir": a["dir_t"]})
     a["dmin"], a["dmax"] = 45.0, 200.0
     if f.size >= 2:
         fm = float((f[0] + f[-1]) / 2)
